@@ -17,6 +17,7 @@ static void x_init_custom(xst *s, const char *fn, const uint8_t *c, size_t cl, s
 static void x_absorb(xst *s, const uint8_t *p, size_t n) { if (A) ascon_xofa_absorb(&s->xa, p, n); else ascon_xof_absorb(&s->x, p, n); }
 static void x_squeeze(xst *s, uint8_t *p, size_t n) { if (A) ascon_xofa_squeeze(&s->xa, p, n); else ascon_xof_squeeze(&s->x, p, n); }
 static void x_free(xst *s) { if (A) ascon_xofa_free(&s->xa); else ascon_xof_free(&s->x); }
+static void x_copy(xst *d, const xst *s) { if (A) ascon_xofa_copy(&d->xa, &s->xa); else ascon_xof_copy(&d->x, &s->x); }
 static void x_reinit(xst *s) { if (A) ascon_xofa_reinit(&s->xa); else ascon_xof_reinit(&s->x); }
 static void x_reinit_fixed(xst *s, size_t n) { if (A) ascon_xofa_reinit_fixed(&s->xa, n); else ascon_xof_reinit_fixed(&s->x, n); }
 static void x_reinit_custom(xst *s, const char *fn, const uint8_t *c, size_t cl, size_t n) { if (A) ascon_xofa_reinit_custom(&s->xa, fn, c, cl, n); else ascon_xof_reinit_custom(&s->x, fn, c, cl, n); }
@@ -83,6 +84,13 @@ static void plain(void)
                 x_init(&s); x_absorb(&s, mp, i1); x_absorb(&s, mp ? mp + i1 : 0, 0); x_absorb(&s, mp ? mp + i1 : 0, inlen - i1);
                 x_squeeze(&s, out, o1); x_squeeze(&s, out + o1, 0); x_squeeze(&s, out + o1, o2 - o1); x_squeeze(&s, out + o2, ol - o2); x_free(&s);
                 cmp(nm("xof:stream-chunked:xof"), out, exp, ol, "inlen=%zu outlen=%zu split in %zu / out %zu", inlen, ol, i1, o1);
+                if (ol == 9 || ol == 17 || ol == mo) {
+                    /* a clone taken while absorbing, and one taken after o1 bytes have been squeezed (also 0 bytes), continues exactly like its original */
+                    xst c1, c2; memset(out, 0xAA, ol);
+                    x_init(&s); x_absorb(&s, mp, i1); x_copy(&c1, &s); x_absorb(&c1, mp ? mp + i1 : 0, inlen - i1); x_squeeze(&c1, out, o1);
+                    x_copy(&c2, &c1); x_squeeze(&c2, out + o1, ol - o1); x_free(&s); x_free(&c1); x_free(&c2);
+                    cmp(nm("xof:copy:xof"), out, exp, ol, "inlen=%zu outlen=%zu cloned after absorbing %zu and after squeezing %zu", inlen, ol, i1, o1);
+                }
                 if (ol == 9 || ol == mo) { memset(out, 0xAA, ol); x_used(&s, (unsigned)(il + ol), msg); x_reinit(&s); x_absorb(&s, mp, inlen); x_squeeze(&s, out, ol); x_free(&s);
                     cmp(nm("xof:reinit:xof"), out, exp, ol, "inlen=%zu outlen=%zu history %zu", inlen, ol, (size_t)((il + ol) % 6), 0); }
             }
